@@ -189,7 +189,16 @@ def coqc_one(path, timeout=600, extra_q=(), out_vo=None):
 def coqc_many(paths, ctx=None, timeout=600, extra_q=(), jobs=None):
     """compile independent generated files in parallel; returns {path: result}"""
     res = {}
-    with concurrent.futures.ThreadPoolExecutor(max_workers=jobs or NPROC) as ex:
+    if jobs is None:
+        # evaluations of large derivative programs need up to ~6 GB each (thorough tier): do not start more of them side by
+        # side than the memory that is available right now can hold (the kernel kills them otherwise)
+        per_job = 6.0 if (ctx is not None and getattr(ctx, "tier", "") == "thorough") else 2.5
+        try:
+            avail = [int(l.split()[1]) for l in open("/proc/meminfo") if l.startswith("MemAvailable:")][0] / 1048576.0
+            jobs = max(2, min(NPROC, int(avail / per_job)))
+        except Exception:
+            jobs = NPROC
+    with concurrent.futures.ThreadPoolExecutor(max_workers=jobs) as ex:
         futs = {ex.submit(coqc_one, p, timeout, extra_q): p for p in paths}
         for fu in concurrent.futures.as_completed(futs):
             r = fu.result()
@@ -200,7 +209,12 @@ def coqc_many(paths, ctx=None, timeout=600, extra_q=(), jobs=None):
     # verdict: run those files again one after the other
     for pth, r in sorted(res.items()):
         if r["rc"] in (-9, 137) and r["secs"] < 0.9 * timeout:
-            r2 = coqc_one(pth, timeout, extra_q)
+            r2 = r
+            for attempt in range(3):
+                time.sleep(15 * attempt)
+                r2 = coqc_one(pth, timeout, extra_q)
+                if r2["rc"] not in (-9, 137):
+                    break
             r2["retried_after_kill"] = True
             res[pth] = r2
             if ctx:
